@@ -18,7 +18,7 @@ def simplex_of(kind, none_p, max_size=6, unique=False, min_size=0):
     return st.one_of(base, base, base, base, base, base, base, base, st.tuples(base, st.integers(0, 5)).map(lambda t: t[0][: t[1]] + [None] + t[0][t[1] :]))
 
 
-def op_strategy(kind, none_p=True, unique_bulk=False, aliases_plain=True):
+def op_strategy(kind, none_p=True, unique_bulk=False, aliases_plain=True, only=None):
     """unique_bulk: members of bulk-added simplices have no repeated node (C05: what a repeated node
     means under max_order is not documented).  C03 draws repeated nodes too."""
     n = node_of(kind)
@@ -53,36 +53,37 @@ def op_strategy(kind, none_p=True, unique_bulk=False, aliases_plain=True):
     noweight = a.map(lambda d: {k: v for k, v in d.items() if k != "weight"})
     wb = st.lists(st.tuples(simplex_of(kind, none_p, max_size=4, unique=unique_bulk, min_size=1), st.sampled_from([0.5, 2, 3.0])).map(list), max_size=2)
     ops = [
-        (2, st.tuples(st.just("add_node"), n, a).map(list)),
-        (1, st.tuples(st.just("add_nodes_from"), st.lists(st.one_of(n, st.tuples(n, a).map(list)), max_size=3), a).map(list)),
-        (4, st.tuples(st.just("remove_node"), n).map(list)),
-        (2, st.tuples(st.just("remove_nodes_from"), st.lists(n, max_size=3)).map(list)),
-        (1, setattr_modes(n).map(lambda t: ["set_node_attributes"] + list(t))),
-        (8, st.tuples(st.just("add_simplex"), sx, ct, st.none(), a).map(list)),
-        (5, st.tuples(st.just("add_simplex"), sx, ct, e, a).map(list)),
-        (3, bulk(1)),
-        (2, bulk(2)),
-        (2, bulk(3)),
-        (2, bulk(4)),
-        (2, bulk(5)),
-        (1, st.tuples(st.just("add_weighted_simplices_from"), wb, st.sampled_from(["weight", "w"]), noweight, mo).map(list)),
-        (1, setattr_modes(e).map(lambda t: ["set_edge_attributes"] + list(t))),
-        (6, st.tuples(st.just("remove_simplex_id"), e).map(list)),
-        (3, st.tuples(st.just("remove_simplex_ids_from"), st.lists(e, max_size=3)).map(list)),
-        (1, st.just(["close"])),
-        (1, st.tuples(st.just("cleanup"), b, b, b).map(list)),
-        (0.5, st.tuples(st.just("clear"), b).map(list)),
+        (2, "add_node", st.tuples(st.just("add_node"), n, a).map(list)),
+        (1, "add_nodes_from", st.tuples(st.just("add_nodes_from"), st.lists(st.one_of(n, st.tuples(n, a).map(list)), max_size=3), a).map(list)),
+        (4, "remove_node", st.tuples(st.just("remove_node"), n).map(list)),
+        (2, "remove_nodes_from", st.tuples(st.just("remove_nodes_from"), st.lists(n, max_size=3)).map(list)),
+        (1, "set_node_attributes", setattr_modes(n).map(lambda t: ["set_node_attributes"] + list(t))),
+        (8, "add_simplex", st.tuples(st.just("add_simplex"), sx, ct, st.none(), a).map(list)),
+        (5, "add_simplex", st.tuples(st.just("add_simplex"), sx, ct, e, a).map(list)),
+        (3, "add_simplices_from", bulk(1)),
+        (2, "add_simplices_from", bulk(2)),
+        (2, "add_simplices_from", bulk(3)),
+        (2, "add_simplices_from", bulk(4)),
+        (2, "add_simplices_from", bulk(5)),
+        (1, "add_weighted_simplices_from", st.tuples(st.just("add_weighted_simplices_from"), wb, st.sampled_from(["weight", "w"]), noweight, mo).map(list)),
+        (1, "set_edge_attributes", setattr_modes(e).map(lambda t: ["set_edge_attributes"] + list(t))),
+        (6, "remove_simplex_id", st.tuples(st.just("remove_simplex_id"), e).map(list)),
+        (3, "remove_simplex_ids_from", st.tuples(st.just("remove_simplex_ids_from"), st.lists(e, max_size=3)).map(list)),
+        (1, "close", st.just(["close"])),
+        (1, "cleanup", st.tuples(st.just("cleanup"), b, b, b).map(list)),
+        (0.5, "clear", st.tuples(st.just("clear"), b).map(list)),
         # deprecated aliases (documented only as "use X instead": drawn with the arguments both share)
-        (1, st.tuples(st.just("add_edge"), sx, ct, st.none(), a).map(list)),
-        (1, bulk(1, "add_edges_from", st.none())),
-        (1, bulk(4, "add_edges_from", st.none())),
-        (1, st.tuples(st.just("remove_edge"), e).map(list)),
-        (1, st.tuples(st.just("remove_edges_from"), st.lists(e, max_size=2)).map(list)),
-        (0.5, st.tuples(st.just("add_weighted_edges_from"), wb, st.sampled_from(["weight", "w"]), noweight, mo).map(list)),
+        (1, "add_edge", st.tuples(st.just("add_edge"), sx, ct, st.none(), a).map(list)),
+        (1, "add_edges_from", bulk(1, "add_edges_from", st.none())),
+        (1, "add_edges_from", bulk(4, "add_edges_from", st.none())),
+        (1, "remove_edge", st.tuples(st.just("remove_edge"), e).map(list)),
+        (1, "remove_edges_from", st.tuples(st.just("remove_edges_from"), st.lists(e, max_size=2)).map(list)),
+        (0.5, "add_weighted_edges_from", st.tuples(st.just("add_weighted_edges_from"), wb, st.sampled_from(["weight", "w"]), noweight, mo).map(list)),
     ]
     pool = []
-    for w, s in ops:
-        pool += [s] * max(1, int(round(w * 2)))
+    for w, nm, s in ops:
+        if only is None or nm in only:
+            pool += [s] * max(1, int(round(w * 2)))
     return st.one_of(pool)
 
 
